@@ -188,7 +188,85 @@ fn go<B: SimField, E: FieldElement<BaseField = B>, H: ElementHasher<BaseField = 
 // C05: BYZANTINE PROVER
 // ------------------------------------------------------------------------------------------------
 
+/// Domains at and beyond 2^32 points - as large as the two-adicity of the field allows (2^32 for the
+/// 64-bit field, 2^39 / 2^40 for the 62- and 128-bit ones). Nothing of that size can be committed
+/// to layer by layer; but a schedule with ZERO layers needs no tree: the remainder is the whole
+/// message, and the function only has to exist at the positions the verifier asks for. The prover
+/// commits to a two-coefficient remainder a + b x; the claimed evaluations are either that
+/// polynomial (control: accept) or a + b x on the lower half of the domain and a - b x on the
+/// upper half (at distance 1/2 from every polynomial of the claimed degree: reject as soon as one
+/// position lies in the upper half).
+fn huge_domain<B: SimField, E: FieldElement<BaseField = B>, H: ElementHasher<BaseField = B>>(ch: &mut Chooser, ctx: &mut Ctx) {
+    let max_log = B::TWO_ADICITY.min(40);
+    let log_domain = if max_log <= 32 { 32 } else { *ch.choose("huge.log", &[33u32, max_log, 32, 34, max_log - 1]) };
+    let blowup = [8usize, 2, 4, 16][ch.index("huge.blowup", 4)];
+    let domain = 1usize << log_domain;
+    let max_degree = domain / blowup - 1;
+    let nq = 1 + ch.index("huge.queries", 32);
+    let far = ch.chance("huge.far?", 1, 2);
+    let salt = ch.u64("huge.salt");
+    let mut rng = simcore::rng::Xoshiro::from_u64(salt);
+    let (a, b) = (rand_elem::<E>(&mut rng), rand_elem::<E>(&mut rng) + E::ONE);
+    let remainder = vec![a, b];
+    let commitment = H::hash_elements(&remainder);
+    ctx.fault(if far { "huge_domain_far_function" } else { "huge_domain_control" });
+    ctx.event_with("setup", (log_domain as u64) << 8 | far as u64, || format!("zero-layer schedule over 2^{log_domain} points, blowup {blowup}, {nq} queries, {}", if far { "a + b x below the middle of the domain, a - b x above" } else { "a + b x (control)" }));
+    // wire form: no layers, the remainder, one partition
+    let mut bytes = vec![0u8];
+    let mut rb = vec![];
+    for e in &remainder {
+        e.write_into(&mut rb);
+    }
+    bytes.extend_from_slice(&(rb.len() as u16).to_le_bytes());
+    bytes.extend_from_slice(&rb);
+    bytes.push(0);
+    let proof = FriProof::read_from_bytes(&bytes).expect("harness: FriProof wire form");
+    let g = B::get_root_of_unity(log_domain);
+    let mut positions: Vec<usize> = vec![];
+    let mut upper = false;
+    let r = guard(|| {
+        let options = fri::FriOptions::new(blowup, 2, max_degree);
+        let mut channel = match DefaultVerifierChannel::<E, H>::new(proof, vec![commitment], domain, 2) {
+            Ok(c) => c,
+            Err(e) => return Err(format!("parse:{}", variant_name(&format!("{:?}", e)))),
+        };
+        let mut coin = DefaultRandomCoin::<H>::new(&[]);
+        let verifier = FriVerifier::new(&mut channel, &mut coin, options, max_degree).map_err(|e| variant_name(&format!("{:?}", e)))?;
+        positions = coin.draw_integers(nq, domain, 0).map_err(|e| variant_name(&format!("{:?}", e)))?;
+        let claimed: Vec<E> = positions
+            .iter()
+            .map(|&p| {
+                let x = E::from(B::GENERATOR * g.exp((p as u64).into()));
+                if far && p >= domain / 2 {
+                    upper = true;
+                    a - b * x
+                } else {
+                    a + b * x
+                }
+            })
+            .collect();
+        verifier.verify(&mut channel, &claimed, &positions).map_err(|e| variant_name(&format!("{:?}", e)))
+    });
+    if positions.iter().any(|p| *p >= 1usize << 32) {
+        ctx.probe("queried_position_at_or_beyond_2_pow_32");
+    }
+    let ctxt = || format!("zero-layer schedule over 2^{log_domain} points, blowup {blowup}, positions {:?}", &positions[..positions.len().min(6)]);
+    match r {
+        Err(p) => ctx.violation(format!("C05/huge-domain/verifier-panic {}", p.signature()), format!("{}:{}: {}; {}", p.file, p.line, p.msg, ctxt())),
+        Ok(Ok(())) if far && upper => ctx.violation(
+            "C05/huge-domain/far-function-accepted",
+            format!("a function that is a + b x on one half of the domain and a - b x on the other was accepted although a queried position lies in the other half; {}", ctxt()),
+        ),
+        Ok(Ok(())) => {},
+        Ok(Err(e)) if !far => ctx.violation(format!("C05/huge-domain/control-rejected {e}"), format!("the evaluations of a + b x were rejected with {e}; {}", ctxt())),
+        Ok(Err(_)) => {},
+    }
+}
+
 fn byzantine<B: SimField, E: FieldElement<BaseField = B>, H: ElementHasher<BaseField = B>>(ch: &mut Chooser, ctx: &mut Ctx, thorough: bool) {
+    if ch.chance("huge.domain?", 1, 25) {
+        return huge_domain::<B, E, H>(ch, ctx);
+    }
     let cfg = gen_fri_cfg(ch, if thorough { 12 } else { 10 });
     let full = cfg.n();
     let domain = cfg.domain();
